@@ -1,10 +1,10 @@
 SPECIFICATION GSpec
 CONSTANTS
-  Mode = "lc"
-  Objs = {1}
-  Keys = {1,2}
-  D = 5
-  Outcomes = {"ok","err","panic"}
+  Mode = "take"
+  Objs = {1,2}
+  Keys = {1}
+  D = 6
+  Outcomes = {"ok","err"}
   Hooks = FALSE
 INVARIANTS PrintHist
 CHECK_DEADLOCK FALSE
